@@ -14,8 +14,10 @@ SPEC = {
                   "the order-free specification specOK, which Lean evaluates on the outcomes of the real cleaner.  Failures are "
                   "in the model separately: a failed rename keeps the entry, a failed removal of the renamed entry leaves it "
                   "half-removed (C14_witness_half_removed; whole-entries is stated for successful removals).  The full "
-                  "statement is refuted three times on the real code: in compressed caches the temporary of a store in flight is "
-                  "recognised but not protected (name theorems + witness, suspended Store); the isMarked test and the rename are "
+                  "statement was refuted three times on the real code; ONE IS FIXED (/repo 9d3a892): in compressed caches the "
+                  "temporary of a store in flight was recognised but not protected - Store now marks it, C14_store_tmp_protected and "
+                  "C14_inflight_tmp_never_evicted are full for both modes, the old witness is conditional on the old fact value.  "
+                  "Still open: the isMarked test and the rename are "
                   "two steps, so an entry retrieved in between is removed (C14_witness_marked_in_window, pause point in the "
                   "loop); and read literally the bound also fails between the water marks (hysteresis, by design).  Two interleavings are exercised on the real code: a "
                   "Store suspended at each of its operations while the cleaner runs, and entries retrieved while the cleaner is "
